@@ -64,6 +64,76 @@ fn c12_conc(rng: &mut Rng, name: &'static str) -> Prepared {
     prep(conc(rng, "C12", name, &p))
 }
 
+/// ACK family: few writes through the real API whose acknowledgements are polled by hand by one
+/// or two threads with counting wakers, changing wakers between polls, polling after completion.
+fn c12_ack(rng: &mut Rng, name: &'static str) -> Prepared {
+    let keys = 3u32;
+    let ws = vec![5i64, 5, 200];
+    let cfg = Cfg {
+        weight: 100,
+        capacity: 16,
+        counters: 64,
+        shards: 2,
+        queue: *rng.pick(&[1usize, 1, 4]),
+        pool: 1,
+        buffer: 2,
+        hash: HashMode::Identity,
+        weight_fn: WeightFn::PerKey(ws),
+        start: Dur::secs(1_700_000_000),
+        keys,
+    };
+    // thread 0 issues 1-2 kept writes, then polls; thread 1 (optional) polls the same handles
+    let mut t0: Vec<Op> = vec![];
+    let n_writes = rng.range(1, 2) as usize;
+    for i in 0..n_writes {
+        let op = match rng.below(10) {
+            0..=5 => Op::Put { key: i as u32, val: token(0, i, i as u32), weight: None, ttl: None, wait: Wait::Never },
+            6..=7 => Op::Put { key: 2, val: token(0, i, 2), weight: None, ttl: None, wait: Wait::Never }, // heavier than the cache
+            _ => Op::Delete { key: i as u32, wait: Wait::Never }, // absent key
+        };
+        t0.push(op);
+    }
+    let mut threads = vec![];
+    let pollers = rng.range(1, 2) as usize;
+    for t in 0..pollers {
+        let mut prog = if t == 0 { std::mem::take(&mut t0) } else { vec![] };
+        let n = rng.range(2, 7) as usize;
+        let mut waker = t * 4;
+        for _ in 0..n {
+            match rng.below(10) {
+                0..=5 => {
+                    if rng.chance(1, 3) {
+                        waker = t * 4 + rng.below(3) as usize;
+                    }
+                    prog.push(Op::Poll { slot: rng.below(n_writes as u64) as usize, waker });
+                }
+                6..=7 => prog.push(Op::Yield),
+                _ => prog.push(Op::Read { kind: *rng.pick(&ALL_READS), keys: vec![rng.below(2) as u32] }),
+            }
+        }
+        threads.push(prog);
+    }
+    if rng.chance(1, 6) {
+        threads.push(vec![Op::Yield, Op::Shutdown]);
+    }
+    let mut sched = gen_sched(rng);
+    if rng.chance(1, 2) {
+        sched.stalls.push(gen_stall(rng, RoleName::Worker));
+    }
+    prep(Scenario {
+        property: "C12".to_string(),
+        family: "ACK".to_string(),
+        stratum: name.to_string(),
+        cfg,
+        threads,
+        online: String::new(),
+        online_seed: 0,
+        online_steps: 0,
+        sched,
+        salt: rng.next(),
+    })
+}
+
 // ---------------------------------------------------------------- C13
 fn c13_conc(rng: &mut Rng, name: &'static str) -> Prepared {
     let mut p = ConcParams::base();
@@ -147,6 +217,34 @@ fn edge_cfg(rng: &mut Rng, allow_one_counter: bool) -> Cfg {
         c.weight = *rng.pick(&[1i64, 2, 3, i64::MAX / 2, i64::MAX - 1, i64::MAX]);
     }
     c
+}
+
+fn c06_seq(rng: &mut Rng, name: &'static str) -> Prepared {
+    let mut p = seq_prepare(rng, "C06", name, "C06", (15, 70));
+    let mut cfg = seq_cfg(rng);
+    cfg.keys = rng.range(4, 8) as u32;
+    let ws: Vec<i64> = (0..cfg.keys).map(|_| *rng.pick(&[1i64, 2, 3, 4, 5, 8])).collect();
+    let sum: i64 = ws.iter().sum();
+    cfg.weight = (sum * rng.range_i(40, 95) / 100).max(2);
+    cfg.weight_fn = WeightFn::PerKey(ws);
+    cfg.pool = *rng.pick(&[1usize, 1, 2]);
+    cfg.buffer = *rng.pick(&[1usize, 1, 2, 3]);
+    cfg.counters = *rng.pick(&[2u64, 3, 7, 16, 64, 100]);
+    rebuild_with_cfg(&mut p, cfg);
+    p
+}
+
+fn c14_seq(rng: &mut Rng, name: &'static str) -> Prepared {
+    let mut p = seq_prepare(rng, "C14", name, "C14", (25, 160));
+    let mut cfg = seq_cfg(rng);
+    cfg.keys = rng.range(2, 5) as u32;
+    cfg.weight = 400;
+    cfg.weight_fn = WeightFn::PerKey(vec![1; cfg.keys as usize]);
+    cfg.pool = *rng.pick(&[1usize, 1, 2, 3]);
+    cfg.buffer = *rng.pick(&[1usize, 1, 2, 3]);
+    cfg.counters = *rng.pick(&[1u64, 2, 3, 5, 7, 16, 17, 33, 64, 100]);
+    rebuild_with_cfg(&mut p, cfg);
+    p
 }
 
 fn c17_edge(rng: &mut Rng, name: &'static str) -> Prepared {
@@ -239,9 +337,17 @@ fn own_c05(m: &Mis, op: &Op, _pre: &Model) -> Option<String> {
     None
 }
 
-fn own_c06(m: &Mis, _op: &Op, _pre: &Model) -> Option<String> {
+fn own_c06(m: &Mis, op: &Op, pre: &Model) -> Option<String> {
     if m.aspect == "admission" {
         return Some(format!("C06/{}/seq", m.class));
+    }
+    // the evictions reported by the decision events must be what really happened
+    let put_on_absent = match op {
+        Op::Put { key, .. } | Op::Upsert { key, .. } => !pre.keys.contains_key(key),
+        _ => false,
+    };
+    if put_on_absent && matches!(m.aspect, "store" | "weights" | "weight_used") {
+        return Some(format!("C06/event-vs-observed/{}", m.aspect));
     }
     None
 }
@@ -323,6 +429,13 @@ fn own_c16(m: &Mis, _op: &Op, _pre: &Model) -> Option<String> {
     None
 }
 
+fn own_c14(m: &Mis, _op: &Op, _pre: &Model) -> Option<String> {
+    if m.aspect == "sketch" {
+        return Some(format!("C14/{}/{}", m.class, m.ctx));
+    }
+    None
+}
+
 fn own_none(_m: &Mis, _op: &Op, _pre: &Model) -> Option<String> {
     None
 }
@@ -362,9 +475,19 @@ fn focus_for(name: &str) -> (Focus, Own) {
         }
         "C06" => {
             f.property = "C06";
-            f.mix = [45, 5, 5, 35, 2, 2, 1, 5];
+            f.mix = [34, 6, 10, 46, 2, 1, 0, 1];
             f.ttl_pct = 10;
+            f.check_admission = true;
+            f.consumer_idle_pct = 10;
+            f.verify_read_pct = 0;
             own_c06
+        }
+        "C14" => {
+            f.property = "C14";
+            f.mix = [10, 3, 2, 82, 1, 1, 0, 1];
+            f.ttl_pct = 5;
+            f.mirror = true;
+            own_c14
         }
         "C07" => {
             f.property = "C07";
@@ -631,6 +754,7 @@ pub fn plan(property: &str) -> Vec<Stratum> {
         "C03" => vec![Stratum { name: "conc-owners", share: 7, gen: c03_conc }, Stratum { name: "seq-long", share: 3, gen: c03_seq }],
         "C04" => vec![Stratum { name: "conc-delete-race", share: 6, gen: c04_conc }, Stratum { name: "seq-model", share: 4, gen: c04_seq }],
         "C05" => vec![Stratum { name: "conc-same-key-races", share: 8, gen: c05_conc }, Stratum { name: "seq-model", share: 2, gen: c05_seq }],
+        "C06" => vec![Stratum { name: "seq-admission", share: 10, gen: c06_seq }],
         "C07" => vec![Stratum { name: "seq-lifecycle", share: 10, gen: c07_seq }],
         "C08" => vec![Stratum { name: "seq-upsert", share: 10, gen: c08_seq }],
         "C09" => vec![
@@ -640,8 +764,9 @@ pub fn plan(property: &str) -> Vec<Stratum> {
         ],
         "C10" => vec![Stratum { name: "seq-sweeps", share: 6, gen: c10_seq }, Stratum { name: "conc-owners-sweeps", share: 4, gen: c10_conc }],
         "C11" => vec![Stratum { name: "conc-bursts", share: 10, gen: c11_conc }],
-        "C12" => vec![Stratum { name: "conc-passive", share: 10, gen: c12_conc }],
+        "C12" => vec![Stratum { name: "conc-passive", share: 5, gen: c12_conc }, Stratum { name: "ack-manual-polls", share: 5, gen: c12_ack }],
         "C13" => vec![Stratum { name: "conc-chaos", share: 10, gen: c13_conc }],
+        "C14" => vec![Stratum { name: "seq-sketch-mirror", share: 10, gen: c14_seq }],
         "C15" => vec![Stratum { name: "pipe", share: 10, gen: c15_pipe }],
         "C16" => vec![Stratum { name: "seq-model", share: 6, gen: c16_seq }, Stratum { name: "conc-quiescent", share: 4, gen: c16_conc }],
         "C17" => vec![Stratum { name: "seq-edge", share: 10, gen: c17_edge }],
@@ -687,7 +812,7 @@ pub fn judge(property: &str, sc: &Scenario, out: &RunOutput, _rec: &SchedRecord)
     let hx = Hx::build(&out.log);
     let mut v = Verdict::new();
     v.violations.extend(out.violations.iter().cloned());
-    let conc = sc.family == "CONC";
+    let conc = sc.family == "CONC" || sc.family == "ACK";
     match property {
         "C01" if conc => oracle::c01(sc, &hx, &mut v),
         "C02" => oracle::c02(sc, &hx, &mut v),
@@ -700,6 +825,9 @@ pub fn judge(property: &str, sc: &Scenario, out: &RunOutput, _rec: &SchedRecord)
         "C12" => {
             oracle::c12_passive(&hx, &mut v);
             v.nontrivial = hx.writes.iter().any(|w| w.ack_obs.map(|a| a.3 > 0).unwrap_or(false));
+            if sc.family == "ACK" {
+                oracle::c12_ack(sc, &hx, &mut v);
+            }
         }
         "C13" => oracle::c13(sc, &hx, &mut v),
         "C15" => oracle::c15(sc, &hx, _rec, &out.chans, &mut v),
@@ -774,6 +902,8 @@ fn seq_nontrivial(property: &str, hx: &Hx) -> bool {
         "C08" => hx.writes.iter().any(|w| w.is_upsert() && w.upsert_in_place()),
         "C09" => !hx.advances.is_empty() && hx.writes.iter().any(|w| matches!(&w.op, Op::Put { ttl: Some(_), .. } | Op::Upsert { ttl: Some(_), .. })),
         "C10" => swept,
+        "C06" => hx.hooks.iter().any(|h| matches!(h.2, Hook::CreateSpace { .. })),
+        "C14" => hx.hooks.iter().filter(|h| matches!(h.2, Hook::BatchApplied { .. })).count() >= 3,
         "C16" => !hx.reads.is_empty() && hx.writes.iter().any(|w| w.status() == Some(St::Accepted)),
         _ => true,
     }
